@@ -224,7 +224,8 @@ fn main() {
         }
         // boundary cards: lowest / highest cards in every position
         for (pocket, public) in [(0b11u64, 0b11100u64), (3 << 50, 7 << 47), (1 | 1 << 51, 0b1110), (1 | 1 << 51, 0b11111 << 1), (3 << 50, 0b11111), (0b11, 0b11111 << 47), (0b11, 0)] {
-            if seen.insert((pocket, public)) && !(public == 0) {
+            // (in the thorough tier every flop observation has already been enumerated above)
+            if seen.insert((pocket, public)) && !(public == 0) && !(deep && public.count_ones() == 3) {
                 obs_case(&mut run, pocket, public, true, &mut dist);
                 run.count("obs-boundary");
             }
